@@ -23,7 +23,8 @@ int rank_chop(torch::Tensor s, double eps)
     if (eps <= 0.0)
         return r;
 
-    double *ss = (double *)s.data_ptr();
+    s = s.to(torch::kFloat64).contiguous(); // the singular values of single precision operands are floats
+    double *ss = s.data_ptr<double>();
 
     while (r > 0)
     {
